@@ -256,34 +256,55 @@ func createPointerJobs(left, right IndividualNodes, options *IndividualNodesComp
 func createUniqueJobs(left, right IndividualNodes, options *IndividualNodesCompareOptions, totals chan int64, jobs chan *IndividualComparison) {
 	ws := options.ConcurrentJobs()
 
+	// Looking up the individuals that share a unique identifier is the
+	// expensive part and can be done for each left individual independently.
+	candidates := make([]IndividualNodes, len(left))
+
 	util.WorkerPool(ws, func(w int) {
 		for leftI := w; leftI < len(left); leftI += ws {
-			a := left[leftI]
-			bs := right.ByUniqueIdentifiers(a.UniqueIdentifiers())
+			candidates[leftI] = right.ByUniqueIdentifiers(
+				left[leftI].UniqueIdentifiers())
+		}
+	})
 
-			// Ideally we should not get multiple individuals returned. That
-			// would mean that multiple individuals share the same unique
-			// identifier. All we can do in this case is to pick the first
-			// one that has not been matched with another individual already
-			// (an individual must never be matched twice).
-			for _, b := range bs {
-				if _, ok := options.sentB.LoadOrStore(b.Pointer(), nil); ok {
-					continue
-				}
+	// Ideally we should not get multiple individuals returned. That would mean
+	// that multiple individuals share the same unique identifier. All we can
+	// do in this case is to pick the first one that has not been matched with
+	// another individual already (an individual must never be matched twice).
+	//
+	// Who gets whom must not depend on how the workers are scheduled, so this
+	// is decided in the order of the left individuals.
+	type uniqueMatch struct {
+		a, b *IndividualNode
+	}
 
-				options.adjustTotal(totals)
-				ss := a.SurroundingSimilarity(b, options.SimilarityOptions, true)
+	matches := []uniqueMatch{}
 
-				jobs <- &IndividualComparison{
-					Left:         a,
-					Right:        b,
-					Similarity:   ss,
-					certainMatch: true,
-				}
+	for leftI, a := range left {
+		for _, b := range candidates[leftI] {
+			if _, ok := options.sentB.LoadOrStore(b.Pointer(), nil); ok {
+				continue
+			}
 
-				options.sentA.Store(a.Pointer(), nil)
+			matches = append(matches, uniqueMatch{a, b})
+			options.sentA.Store(a.Pointer(), nil)
 
-				break
+			break
+		}
+	}
+
+	util.WorkerPool(ws, func(w int) {
+		for i := w; i < len(matches); i += ws {
+			a, b := matches[i].a, matches[i].b
+
+			options.adjustTotal(totals)
+			ss := a.SurroundingSimilarity(b, options.SimilarityOptions, true)
+
+			jobs <- &IndividualComparison{
+				Left:         a,
+				Right:        b,
+				Similarity:   ss,
+				certainMatch: true,
 			}
 		}
 	})
@@ -665,15 +686,15 @@ func (nodes IndividualNodes) ByUniqueIdentifier(identifier string) *IndividualNo
 // ByUniqueIdentifiers returns the any individuals that have a UniqueIdentifier
 // of one of the provided identifiers.
 func (nodes IndividualNodes) ByUniqueIdentifiers(identifiers *StringSet) (all IndividualNodes) {
-	identifiers.Iterate(func(identifier string) bool {
+	// Strings is sorted. The order of the individuals must not depend on the
+	// iteration order of the set.
+	for _, identifier := range identifiers.Strings() {
 		individualNode := nodes.ByUniqueIdentifier(identifier)
 
 		if individualNode != nil {
 			all = append(all, individualNode)
 		}
-
-		return true
-	})
+	}
 
 	return
 }
